@@ -213,7 +213,7 @@ Ltac decode_list Hds :=
 
 (* ------------------------------------------------------------------ the decoded path reads as the same identity *)
 
-Definition with_raw (u : url) (r : string) : url := Url (u_scheme u) (u_host u) (u_path u) r (u_plain u).
+Definition with_raw (u : url) (r : string) : url := Url (u_scheme u) (u_host u) (u_path u) r (u_deco u).
 
 Lemma parse_decoded_inv sch h p pl id :
   parse_cert_uri (Url sch h p "" pl) = Ok id ->
